@@ -1,6 +1,6 @@
 (* QueryLifeCheck.v — executable comparison of the query life-cycle model with observations of
    the real querystatus.go functions (used by the generated case files of C17). *)
-From SigM Require Import Base QueryLife.
+From SigM Require Import Base QueryLife QueryAdmit.
 Open Scope N_scope.
 
 (* trace items: a model op, "all armed timeout watchers fire" (the harness slept past the
@@ -30,7 +30,8 @@ Definition out_code (o : out) : N :=
 Definition rview := (N * bool * nat)%type.
 Record obs := mkO { o_out : N; o_nrun : nat; o_nwait : nat;
                     o_lists : option (list rview * list (N * nat));   (* None = only the sizes were recorded *)
-                    o_watch : option nat }.
+                    o_watch : option nat;
+                    o_active : option nat }.   (* what the public getter GetActiveQueryCount returned (None = not asked) *)
 
 Fixpoint insert_r (x : rview) (l : list rview) : list rview :=
   match l with
@@ -55,7 +56,8 @@ Definition obs_ok (s : st) (r : out) (o : obs) : bool :=
      | None => true
      | Some (rl, wl) => list_eqb rview_eqb (view_running s) rl && list_eqb wview_eqb (view_waiting s) wl
      end
-  && match o_watch o with None => true | Some k => Nat.eqb (length (watchers s)) k end.
+  && match o_watch o with None => true | Some k => Nat.eqb (length (watchers s)) k end
+  && match o_active o with None => true | Some k => Nat.eqb (active_count s) k end.
 
 (* indices (from 0) of the steps after which model and implementation differ *)
 Fixpoint check_from (mx : nat) (s : st) (tr : list (top * obs)) (idx : nat) : list nat :=
@@ -77,14 +79,17 @@ Fixpoint check_cases (cs : list (nat * list (top * obs))) (idx : nat) : list nat
   end.
 
 (* the case files write every number as an N (cheaper to parse than nat literals) *)
-Definition mkON (out nr nw : N) (lists : option (list (N * bool * N) * list (N * N))) (w : option N) : obs :=
+Definition mkONA (out nr nw : N) (lists : option (list (N * bool * N) * list (N * N))) (w : option N)
+                 (act : option N) : obs :=
   mkO out (N.to_nat nr) (N.to_nat nw)
       (match lists with
        | None => None
        | Some (rl, wl) => Some (map (fun x => (fst (fst x), snd (fst x), N.to_nat (snd x))) rl,
                                 map (fun x => (fst x, N.to_nat (snd x))) wl)
        end)
-      (match w with None => None | Some k => Some (N.to_nat k) end).
+      (match w with None => None | Some k => Some (N.to_nat k) end)
+      (match act with None => None | Some k => Some (N.to_nat k) end).
+Definition mkON out nr nw lists w : obs := mkONA out nr nw lists w None.
 
 Fixpoint check_cases_n (cs : list (N * list (top * obs))) (idx : nat) : list nat :=
   match cs with
